@@ -51,9 +51,23 @@ def doc_sig(d: SObj) -> z3.ExprRef:
     return sig_doc(opt_str(d.fields["name"]), msig, sections_sig(d.fields["sections"].items), sep if V.is_z3(sep) else z3.BoolVal(bool(sep)), opt_str(d.fields["raw_frontmatter"]), opt_str(d.fields["grammar_version"]))
 
 
+def _plain_emission_only(a, r):
+    """ghost-trace post: the text that is hashed comes from emit(doc) without format options (see emit_contract)"""
+    return not any(t and t[0] == "emit_with_format_options" for t in a.trace)
+
+
 def emit_contract(I, self_obj, pos, kw, st):
     """emit(doc) = emit_of(content signature); needs trailing_comments == [] here (the sealer builds such documents)"""
     d = st.resolve(pos[0])
+    # emit_of stands for the PLAIN canonical emission - the function whose injectivity on content C01 / C02 / C05 establish.
+    # A call that passes format options runs the line-based option pass on top (trailing-space strip, blank-line and indent
+    # normalisation: it knows nothing about literal zones or frontmatter), which is a different, non-injective text:
+    # the seal algebra must not go through for it.
+    opts = pos[1] if len(pos) > 1 else kw.get("format_options")
+    if opts is not None:
+        st.trace.append(("emit_with_format_options", getattr(d, "name", "doc")))
+        yield st, z3.String("emit_with_format_options")
+        return
     tc = d.fields.get("trailing_comments")
     if isinstance(tc, SList) and tc.items:
         yield st, z3.String("emit_with_trailing_comments")
@@ -223,7 +237,7 @@ def seal_posts():
         ks = [k.fields["key"] for k in seal.fields["children"].items]
         return ("GRAMMAR" in ks) == (a.old.doc.fields["grammar_version"] is not None)
 
-    return {"sections_are_unsealed_members_plus_SEAL": sealed_shape, "HASH_is_sha256_of_emit_of_unsealed_content": hash_is_sha_of_emit_of_unsealed, "header_copied_input_untouched": header_and_frame, "GRAMMAR_child_iff_version": grammar_child}
+    return {"the_sealed_text_is_the_plain_canonical_emission": _plain_emission_only, "sections_are_unsealed_members_plus_SEAL": sealed_shape, "HASH_is_sha256_of_emit_of_unsealed_content": hash_is_sha_of_emit_of_unsealed, "header_copied_input_untouched": header_and_frame, "GRAMMAR_child_iff_version": grammar_child}
 
 
 def _seal_setup(I):
@@ -291,7 +305,7 @@ def verify_posts(kind: str):
     def untouched(a, r):
         return not any(t[0] in ("store", "append") and not str(t[1]).startswith(("Document#", "SealVerificationResult#")) for t in a.trace)
 
-    return {f"status_by_hash_comparison[{kind}]": status, f"input_untouched[{kind}]": untouched}
+    return {f"the_verified_text_is_the_plain_canonical_emission[{kind}]": _plain_emission_only, f"status_by_hash_comparison[{kind}]": status, f"input_untouched[{kind}]": untouched}
 
 
 VERIFY = FunctionContract(M, "verify_seal", {"doc": DocP("full")}, verify_posts("full"), setup=_seal_setup, callee_contracts={"octave_mcp.core.emitter:emit": emit_contract}, inline_depth=6)
